@@ -1,3 +1,4 @@
+open Model
 open Drv_common
 let () =
   try
